@@ -265,6 +265,10 @@ def make_cases(ctx, first):
                 d, _, mt = rng.choice(w.arts[repo])
                 for s2 in list(w.steps):
                     if s2["kind"] == "mput" and dg("sha256", s2["body"]) == d:
+                        if rng.random() < 0.5:
+                            # deleted first: its bytes are still stored when it is pushed again
+                            w.add(manifest_delete(repo, d))
+                            w.probe_refs(repo)
                         w.add(manifest_put(repo, d, s2["body"], ctype=mt))
                         break
             w.probe_refs(repo)
@@ -275,7 +279,77 @@ def make_cases(ctx, first):
     return cases
 
 
+def paged_delete_check(ctx):
+    """a paged listing during which one referrer of the subject is deleted (and the cached pages expire; in half of the
+    cases another client lists the subject in between): every artifact that was there before the listing began and is still
+    there when it ends is on one of the pages the Link chain leads through"""
+    rng = ctx.rng
+    cases = []
+    for i in range(24 if ctx.tier == "quick" else 400):
+        conf = mkconf(store=("mem", "dir")[i % 2], rlimit=rng.choice([900, 1100, 1500]), withsubj=False, dangling=False, pageexp_ms=rng.choice([30, 60]))
+        w = W7(rng, conf, ["a"])
+        w.base("a")
+        subj = w.subject("a")
+        n0 = len(w.steps)
+        for _ in range(rng.randrange(5, 10)):
+            w.artifact("a", subject=subj)
+        arts = [dg("sha256", s_["body"]) if gen.is_tag_py(s_["arg"]) else s_["arg"] for s_ in w.steps[n0:] if s_["kind"] == "mput" and b'"subject"' in s_["body"]]
+        victim = arts[0] if rng.random() < 0.6 else rng.choice(arts)         # (mostly one the client has already been shown)
+        flt = None
+        walk = ref_walk("a", subj["digest"], flt)
+        mids = [manifest_delete("a", victim), special("sleep", secs=rng.choice([0.0, 0.2, 0.2, 0.2]))]
+        if rng.random() < 0.5:
+            mids.append(referrers("a", subj["digest"], None))          # another client lists the subject: the new response is cached
+        walk["impl"] = dict(walk["impl"], mid=[m["impl"] for m in mids], split=rng.choice([0, 0, 1]))
+        walk.update(model="(skip)", victim=victim, arts=arts, paged_delete=True)
+        w.add(walk)
+        w.add(ref_walk("a", subj["digest"], flt))
+        for st in w.steps:
+            if st.get("paged_delete"):
+                st["model"] = "(skip)"
+        cases.append(dict(id=960000 + i, conf=conf, steps=w.steps, contents=sorted(w.contents)))
+    import glob, os
+    for fn in sorted(glob.glob(os.path.join(VERIF, "corpus", "C07.paged", "*.json"))):
+        cc = unreplay(json.load(open(fn)))
+        cc["id"] = 959000 + len(cases)
+        cases.insert(0, cc)
+    iouts = run_api(ctx, api_binary(ctx), cases, name="pagedel")
+    nbad = 0
+    for c in cases:
+        io = iouts[c["id"]]
+        for k, (st, r) in enumerate(zip(c["steps"], io["steps"])):
+            if not st.get("paged_delete"):
+                continue
+            pages = (r.get("par") or [[]])[0]
+            mres = (r.get("par") or [[], []])[-1]
+            deleted = bool(mres) and mres[0].get("status") == 202
+            seen = set()
+            ok = True
+            for pg in pages:
+                try:
+                    j = json.loads(oracles.body_of(pg).decode())
+                    seen |= {d.get("digest") for d in (j.get("manifests") or [])}
+                except Exception:
+                    ok = False
+            live = [a for a in st["arts"] if not (deleted and a == st["victim"])]
+            missing = [a for a in live if a not in seen]
+            if ok and len(pages) > 1 and missing:
+                nbad += 1
+                ctx.violation("a paged referrers listing (%d pages) during which %s was deleted never shows %s, present before the listing began and never deleted"
+                              % (len(pages), st["victim"][:19], [m[:19] for m in missing]),
+                              oracles.hist(c, k, None, pages=[p.get("status") for p in pages], links=[oracles.hdr(p, "Link") for p in pages]), "C07:paged-listing-across-delete")
+    return len(cases), nbad
+
+
 def run(ctx):
+    res = {}
+    run_main(ctx)
+    if not ctx.replay:
+        res = paged_delete_check(ctx)
+        ctx.coverage["paged_listings_across_a_delete"], ctx.coverage["paged_listings_incomplete"] = res
+
+
+def run_main(ctx):
     apicheck.run(ctx, "C07", make_cases, oracle,
                  assumptions=["artifact annotations in these histories do not use the reserved keys org.opencontainers.image.ref.name / org.olareg.referrer.subject",
                               "JSON lengths are not modelled: the split model takes them as inputs measured on Go's own encoding; API responses are compared as the set of descriptors along the whole Link chain",
